@@ -701,6 +701,18 @@ module N =
   | S n' -> Npos (Coq_Pos.of_succ_nat n')
  end
 
+(** val hd : 'a1 -> 'a1 list -> 'a1 **)
+
+let hd default = function
+| [] -> default
+| x :: _ -> x
+
+(** val tl : 'a1 list -> 'a1 list **)
+
+let tl = function
+| [] -> []
+| _ :: m -> m
+
 (** val in_dec : ('a1 -> 'a1 -> bool) -> 'a1 -> 'a1 list -> bool **)
 
 let rec in_dec h a = function
@@ -766,6 +778,12 @@ let rec fold_left f l a0 =
   | [] -> a0
   | b :: t -> fold_left f t (f a0 b)
 
+(** val fold_right : ('a2 -> 'a1 -> 'a1) -> 'a1 -> 'a2 list -> 'a1 **)
+
+let rec fold_right f a0 = function
+| [] -> a0
+| b :: t -> f b (fold_right f a0 t)
+
 (** val existsb : ('a1 -> bool) -> 'a1 list -> bool **)
 
 let rec existsb f = function
@@ -788,17 +806,17 @@ let rec filter f = function
 
 let rec find f = function
 | [] -> None
-| x :: tl -> if f x then Some x else find f tl
+| x :: tl0 -> if f x then Some x else find f tl0
 
 (** val combine : 'a1 list -> 'a2 list -> ('a1 * 'a2) list **)
 
 let rec combine l l' =
   match l with
   | [] -> []
-  | x :: tl ->
+  | x :: tl0 ->
     (match l' with
      | [] -> []
-     | y :: tl' -> (x, y) :: (combine tl tl'))
+     | y :: tl' -> (x, y) :: (combine tl0 tl'))
 
 (** val firstn : nat -> 'a1 list -> 'a1 list **)
 
@@ -2923,6 +2941,594 @@ let t_parser_types =
     true, true, true, true, false)), EmptyString)))))))))))))))))))), (Zpos
     (XI (XO (XO (XO XH)))))) :: []))))))))))))))))
 
+(** val t_string : z **)
+
+let t_string =
+  Zpos XH
+
+(** val t_octets : z **)
+
+let t_octets =
+  Zpos (XO XH)
+
+(** val t_ipaddr : z **)
+
+let t_ipaddr =
+  Zpos (XI XH)
+
+(** val t_date : z **)
+
+let t_date =
+  Zpos (XO (XO XH))
+
+(** val t_integer : z **)
+
+let t_integer =
+  Zpos (XI (XO XH))
+
+(** val t_ipv6addr : z **)
+
+let t_ipv6addr =
+  Zpos (XO (XI XH))
+
+(** val t_ipv6prefix : z **)
+
+let t_ipv6prefix =
+  Zpos (XI (XI XH))
+
+(** val t_ifid : z **)
+
+let t_ifid =
+  Zpos (XO (XO (XO XH)))
+
+(** val t_integer64 : z **)
+
+let t_integer64 =
+  Zpos (XI (XO (XO XH)))
+
+(** val t_vsa : z **)
+
+let t_vsa =
+  Zpos (XO (XI (XO XH)))
+
+(** val t_byte : z **)
+
+let t_byte =
+  Zpos (XI (XO (XI XH)))
+
+(** val t_short : z **)
+
+let t_short =
+  Zpos (XO (XI (XI XH)))
+
+type gattr = { ga_name : bytes; ga_ident : bytes; ga_oid : z list;
+               ga_type : z; ga_size : z option; ga_enc : z option;
+               ga_tag : bool option; ga_concat : bool option }
+
+type gvalue = { gl_attr : bytes; gl_name : bytes; gl_ident : bytes; gl_num : z }
+
+type gvendor = { gn_name : bytes; gn_ident : bytes; gn_num : z; gn_tlen : 
+                 z; gn_llen : z; gn_attrs : gattr list; gn_vals : gvalue list }
+
+type gdict = { gd_attrs : gattr list; gd_vals : gvalue list;
+               gd_vendors : gvendor list }
+
+type gopts = { go_ignore : bytes list; go_ext : (bytes * bytes) list }
+
+(** val e_conflict : n **)
+
+let e_conflict =
+  Npos XH
+
+(** val e_attr : n **)
+
+let e_attr =
+  Npos (XO XH)
+
+(** val e_unknown : n **)
+
+let e_unknown =
+  Npos (XI XH)
+
+(** val e_vendor : n **)
+
+let e_vendor =
+  Npos (XO (XO XH))
+
+(** val e_vattr : n **)
+
+let e_vattr =
+  Npos (XI (XO XH))
+
+(** val e_range : n **)
+
+let e_range =
+  Npos (XO (XI XH))
+
+(** val e_valconflict : n **)
+
+let e_valconflict =
+  Npos (XI (XI XH))
+
+(** val mem : bytes -> bytes list -> bool **)
+
+let mem x l =
+  existsb (beq x) l
+
+(** val has_tag : gattr -> bool **)
+
+let has_tag a =
+  match a.ga_tag with
+  | Some b -> b
+  | None -> false
+
+(** val is_concat : gattr -> bool **)
+
+let is_concat a =
+  match a.ga_concat with
+  | Some b -> b
+  | None -> false
+
+(** val is_str : z -> bool **)
+
+let is_str t =
+  (||) (Z.eqb t t_string) (Z.eqb t t_octets)
+
+(** val salted : gattr -> bool **)
+
+let salted a =
+  match a.ga_enc with
+  | Some e -> Z.eqb e (Zpos (XO XH))
+  | None -> false
+
+(** val some : 'a1 option -> bool **)
+
+let some = function
+| Some _ -> true
+| None -> false
+
+(** val is_int : z -> bool **)
+
+let is_int t =
+  (||) ((||) (Z.eqb t t_short) (Z.eqb t t_integer)) (Z.eqb t t_integer64)
+
+(** val enc_supported : gattr -> z -> bool **)
+
+let enc_supported a e =
+  if is_str a.ga_type
+  then true
+  else if (||) (Z.eqb a.ga_type t_ipaddr) (Z.eqb a.ga_type t_ipv6addr)
+       then Z.eqb e (Zpos (XO XH))
+       else if is_int a.ga_type
+            then (&&) (Z.eqb e (Zpos (XO XH))) (negb (has_tag a))
+            else false
+
+(** val common_invalid : gattr -> bool **)
+
+let common_invalid a =
+  (||)
+    ((||)
+      ((||)
+        ((||) (negb (Nat.eqb (length a.ga_oid) (S O)))
+          (match a.ga_enc with
+           | Some e -> negb (enc_supported a e)
+           | None -> false))
+        ((&&) (some a.ga_size) (negb (is_str a.ga_type))))
+      (match a.ga_enc with
+       | Some e ->
+         (&&) (negb (Z.eqb e (Zpos XH))) (negb (Z.eqb e (Zpos (XO XH))))
+       | None -> false))
+    ((&&) (has_tag a)
+      (negb ((||) (is_str a.ga_type) (Z.eqb a.ga_type t_integer))))
+
+(** val supported : z -> bool **)
+
+let supported t =
+  (||)
+    ((||)
+      ((||)
+        ((||)
+          ((||)
+            ((||)
+              ((||)
+                ((||) ((||) (is_str t) (Z.eqb t t_ipaddr))
+                  (Z.eqb t t_ipv6addr)) (Z.eqb t t_ipv6prefix))
+              (Z.eqb t t_ifid)) (Z.eqb t t_date)) (Z.eqb t t_short))
+        (Z.eqb t t_integer)) (Z.eqb t t_integer64)) (Z.eqb t t_byte)
+
+(** val invalid_top : gattr -> bool **)
+
+let invalid_top a =
+  (||)
+    ((||) (common_invalid a)
+      ((&&) (is_concat a)
+        ((||)
+          ((||) ((||) (negb (is_str a.ga_type)) (some a.ga_enc))
+            (some a.ga_tag)) (some a.ga_size))))
+    (negb ((||) (supported a.ga_type) (Z.eqb a.ga_type t_vsa)))
+
+(** val invalid_vendor_attr : gattr -> bool **)
+
+let invalid_vendor_attr a =
+  (||)
+    ((||)
+      ((||) (common_invalid a)
+        (match a.ga_oid with
+         | [] -> true
+         | n0 :: l ->
+           (match l with
+            | [] ->
+              (||) (Z.ltb n0 Z0)
+                (Z.ltb (Zpos (XI (XI (XI (XI (XI (XI (XI XH)))))))) n0)
+            | _ :: _ -> true))) (is_concat a)) (negb (supported a.ga_type))
+
+(** val check_attrs :
+    (gattr -> bool) -> n -> bytes list -> bytes list -> gattr list -> (gattr
+    list * bytes list) res **)
+
+let rec check_attrs invalid e ignore seen = function
+| [] -> Ok ([], seen)
+| a :: r ->
+  if mem a.ga_name ignore
+  then check_attrs invalid e ignore seen r
+  else if mem a.ga_ident seen
+       then Err e_conflict
+       else if invalid a
+            then Err e
+            else (match check_attrs invalid e ignore (a.ga_ident :: seen) r with
+                  | Ok a0 -> let (kept, seen') = a0 in Ok ((a :: kept), seen')
+                  | x -> x)
+
+(** val insert : ('a1 -> 'a1 -> bool) -> 'a1 -> 'a1 list -> 'a1 list **)
+
+let rec insert lt x l = match l with
+| [] -> x :: []
+| y :: r -> if lt x y then x :: l else y :: (insert lt x r)
+
+(** val sort : ('a1 -> 'a1 -> bool) -> 'a1 list -> 'a1 list **)
+
+let sort lt l =
+  fold_right (insert lt) [] l
+
+(** val oid_lt : nat -> z list -> z list -> bool **)
+
+let rec oid_lt fuel a b =
+  match fuel with
+  | O -> false
+  | S f ->
+    (match a with
+     | [] ->
+       (match b with
+        | [] -> false
+        | _ :: _ ->
+          let x = match a with
+                  | [] -> Z0
+                  | x :: _ -> x in
+          let y = match b with
+                  | [] -> Z0
+                  | y :: _ -> y in
+          if negb (Z.eqb x y) then Z.ltb x y else oid_lt f (tl a) (tl b))
+     | _ :: _ ->
+       let x = match a with
+               | [] -> Z0
+               | x :: _ -> x in
+       let y = match b with
+               | [] -> Z0
+               | y :: _ -> y in
+       if negb (Z.eqb x y) then Z.ltb x y else oid_lt f (tl a) (tl b))
+
+(** val bytes_lt : bytes -> bytes -> bool **)
+
+let rec bytes_lt a b =
+  match a with
+  | [] -> (match b with
+           | [] -> false
+           | _ :: _ -> true)
+  | x :: a' ->
+    (match b with
+     | [] -> false
+     | y :: b' ->
+       if N.ltb x y then true else if N.ltb y x then false else bytes_lt a' b')
+
+(** val oid_cmp_lt : z list -> z list -> bool **)
+
+let oid_cmp_lt a b =
+  oid_lt (S (add (length a) (length b))) a b
+
+(** val attr_lt : gattr -> gattr -> bool **)
+
+let attr_lt a b =
+  if oid_cmp_lt a.ga_oid b.ga_oid
+  then true
+  else if oid_cmp_lt b.ga_oid a.ga_oid
+       then false
+       else bytes_lt a.ga_name b.ga_name
+
+(** val value_lt : gvalue -> gvalue -> bool **)
+
+let value_lt a b =
+  if negb (Z.eqb a.gl_num b.gl_num)
+  then Z.ltb a.gl_num b.gl_num
+  else if negb (beq a.gl_attr b.gl_attr)
+       then bytes_lt a.gl_attr b.gl_attr
+       else bytes_lt a.gl_name b.gl_name
+
+(** val vendor_lt : gvendor -> gvendor -> bool **)
+
+let vendor_lt a b =
+  if negb (Z.eqb a.gn_num b.gn_num)
+  then Z.ltb a.gn_num b.gn_num
+  else bytes_lt a.gn_name b.gn_name
+
+(** val split_values :
+    bytes list -> bytes list -> bytes list -> gvalue list -> (gvalue
+    list * gvalue list) res **)
+
+let rec split_values ignore local ext = function
+| [] -> Ok ([], [])
+| v :: r ->
+  if mem v.gl_attr ignore
+  then split_values ignore local ext r
+  else (match split_values ignore local ext r with
+        | Ok a ->
+          let (lo, ex) = a in
+          if mem v.gl_attr local
+          then Ok ((v :: lo), ex)
+          else if mem v.gl_attr ext then Ok (lo, (v :: ex)) else Err e_unknown
+        | x -> x)
+
+(** val max_of : z -> z option **)
+
+let max_of t =
+  if Z.eqb t t_short
+  then Some (Zpos (XI (XI (XI (XI (XI (XI (XI (XI (XI (XI (XI (XI (XI (XI (XI
+         XH))))))))))))))))
+  else if Z.eqb t t_integer
+       then Some (Zpos (XI (XI (XI (XI (XI (XI (XI (XI (XI (XI (XI (XI (XI
+              (XI (XI (XI (XI (XI (XI (XI (XI (XI (XI (XI (XI (XI (XI (XI (XI
+              (XI (XI XH))))))))))))))))))))))))))))))))
+       else if Z.eqb t t_integer64
+            then Some (Zpos (XI (XI (XI (XI (XI (XI (XI (XI (XI (XI (XI (XI
+                   (XI (XI (XI (XI (XI (XI (XI (XI (XI (XI (XI (XI (XI (XI
+                   (XI (XI (XI (XI (XI (XI (XI (XI (XI (XI (XI (XI (XI (XI
+                   (XI (XI (XI (XI (XI (XI (XI (XI (XI (XI (XI (XI (XI (XI
+                   (XI (XI (XI (XI (XI (XI (XI (XI (XI
+                   XH))))))))))))))))))))))))))))))))))))))))))))))))))))))))))))))))
+            else None
+
+(** val check_vals : z -> (bytes * z) list -> gvalue list -> n option **)
+
+let rec check_vals max0 seen = function
+| [] -> None
+| v :: r ->
+  if Z.ltb max0 v.gl_num
+  then Some e_range
+  else if existsb (fun s ->
+            (&&) (beq (fst s) v.gl_ident) (negb (Z.eqb (snd s) v.gl_num)))
+            seen
+       then Some e_valconflict
+       else check_vals max0 ((v.gl_ident, v.gl_num) :: seen) r
+
+(** val check_values : gattr -> gvalue list -> n option **)
+
+let check_values a vals =
+  match max_of a.ga_type with
+  | Some m -> check_vals m [] (filter (fun v -> beq v.gl_attr a.ga_name) vals)
+  | None -> None
+
+(** val first_error : ('a1 -> n option) -> 'a1 list -> n option **)
+
+let rec first_error f = function
+| [] -> None
+| x :: r -> (match f x with
+             | Some e -> Some e
+             | None -> first_error f r)
+
+type fname =
+| FAdd
+| FAddString
+| FGet
+| FGetString
+| FGets
+| FGetStrings
+| FLookup
+| FLookupString
+| FSet
+| FSetString
+| FDel
+
+type vtype =
+| VBytes
+| VString
+| VIP
+| VHW
+| VNet
+| VTime
+| VNamed
+| VByte
+
+type gdecl =
+| DTypeConst of bytes * z
+| DVendorConst of bytes * z
+| DExtInit of bytes * (bytes * z) list
+| DIntType of bytes * z
+| DValueConst of bytes * bytes * z
+| DStrings of bytes
+| DStringer of bytes
+| DFunc of bytes * fname * bool * bool * vtype
+| DVendorFunc of bytes * z
+
+(** val dedup : gvalue list -> gvalue list **)
+
+let rec dedup = function
+| [] -> []
+| v :: r ->
+  (match dedup r with
+   | [] -> v :: []
+   | w :: r' -> if Z.eqb v.gl_num w.gl_num then w :: r' else v :: (w :: r'))
+
+(** val values_of_attr : gattr -> gvalue list -> gvalue list **)
+
+let values_of_attr a vals =
+  dedup (filter (fun v -> beq v.gl_attr a.ga_name) vals)
+
+(** val funcs : gattr -> gvalue list -> gdecl list **)
+
+let funcs a vals =
+  let id = a.ga_ident in
+  let t = a.ga_type in
+  let tg = has_tag a in
+  let q = salted a in
+  if is_str t
+  then if is_concat a
+       then (DFunc (id, FGet, false, false, VBytes)) :: ((DFunc (id,
+              FGetString, false, false, VString)) :: ((DFunc (id, FLookup,
+              false, false, VBytes)) :: ((DFunc (id, FLookupString, false,
+              false, VString)) :: ((DFunc (id, FSet, false, false,
+              VBytes)) :: ((DFunc (id, FSetString, false, false,
+              VString)) :: ((DFunc (id, FDel, false, false,
+              VBytes)) :: []))))))
+       else (DFunc (id, FAdd, tg, false, VBytes)) :: ((DFunc (id, FAddString,
+              tg, false, VString)) :: ((DFunc (id, FGet, tg, q,
+              VBytes)) :: ((DFunc (id, FGetString, tg, q,
+              VString)) :: ((DFunc (id, FGets, tg, q, VBytes)) :: ((DFunc
+              (id, FGetStrings, tg, q, VString)) :: ((DFunc (id, FLookup, tg,
+              q, VBytes)) :: ((DFunc (id, FLookupString, tg, q,
+              VString)) :: ((DFunc (id, FSet, tg, false, VBytes)) :: ((DFunc
+              (id, FSetString, tg, false, VString)) :: ((DFunc (id, FDel,
+              false, false, VBytes)) :: []))))))))))
+  else if (||) (Z.eqb t t_ipaddr) (Z.eqb t t_ipv6addr)
+       then (DFunc (id, FAdd, false, false, VIP)) :: ((DFunc (id, FGet,
+              false, q, VIP)) :: ((DFunc (id, FGets, false, q,
+              VIP)) :: ((DFunc (id, FLookup, false, q, VIP)) :: ((DFunc (id,
+              FSet, false, false, VIP)) :: ((DFunc (id, FDel, false, false,
+              VIP)) :: [])))))
+       else if (||)
+                 ((||) ((||) (Z.eqb t t_ipv6prefix) (Z.eqb t t_ifid))
+                   (Z.eqb t t_date)) (Z.eqb t t_byte)
+            then let vt =
+                   if Z.eqb t t_ipv6prefix
+                   then VNet
+                   else if Z.eqb t t_ifid
+                        then VHW
+                        else if Z.eqb t t_date then VTime else VByte
+                 in
+                 (DFunc (id, FAdd, false, false, vt)) :: ((DFunc (id, FGet,
+                 false, false, vt)) :: ((DFunc (id, FGets, false, false,
+                 vt)) :: ((DFunc (id, FLookup, false, false, vt)) :: ((DFunc
+                 (id, FSet, false, false, vt)) :: ((DFunc (id, FDel, false,
+                 false, vt)) :: [])))))
+            else if (||) ((||) (Z.eqb t t_short) (Z.eqb t t_integer))
+                      (Z.eqb t t_integer64)
+                 then let bits =
+                        if Z.eqb t t_short
+                        then Zpos (XO (XO (XO (XO XH))))
+                        else if Z.eqb t t_integer
+                             then Zpos (XO (XO (XO (XO (XO XH)))))
+                             else Zpos (XO (XO (XO (XO (XO (XO XH))))))
+                      in
+                      app ((DIntType (id, bits)) :: [])
+                        (app
+                          (map (fun v -> DValueConst (id, v.gl_ident,
+                            v.gl_num)) (values_of_attr a vals)) ((DStrings
+                          id) :: ((DStringer id) :: ((DFunc (id, FAdd, tg,
+                          false, VNamed)) :: ((DFunc (id, FGet, tg, q,
+                          VNamed)) :: ((DFunc (id, FGets, tg, q,
+                          VNamed)) :: ((DFunc (id, FLookup, tg, q,
+                          VNamed)) :: ((DFunc (id, FSet, tg, false,
+                          VNamed)) :: ((DFunc (id, FDel, false, false,
+                          VNamed)) :: [])))))))))
+                 else []
+
+type cvendor = { cv_v : gvendor; cv_attrs : gattr list; cv_vals : gvalue list }
+
+(** val check_vendors :
+    bytes list -> bytes list -> gvendor list -> cvendor list res **)
+
+let rec check_vendors ignore seen = function
+| [] -> Ok []
+| v :: r ->
+  if (||) (negb (Z.eqb v.gn_llen (Zpos XH)))
+       (negb (Z.eqb v.gn_tlen (Zpos XH)))
+  then Err e_vendor
+  else (match check_attrs invalid_vendor_attr e_vattr ignore seen v.gn_attrs with
+        | Ok a ->
+          let (kept, seen') = a in
+          let attrs0 = sort attr_lt kept in
+          let vals = sort value_lt v.gn_vals in
+          (match first_error (fun a0 -> check_values a0 vals) attrs0 with
+           | Some e -> Err e
+           | None ->
+             (match check_vendors ignore seen' r with
+              | Ok cs ->
+                Ok ({ cv_v = v; cv_attrs = attrs0; cv_vals = vals } :: cs)
+              | x -> x))
+        | Err x -> Err x
+        | Panic -> Panic
+        | OutOfFuel -> OutOfFuel)
+
+(** val gen : gopts -> gdict -> gdecl list res **)
+
+let gen o d =
+  match check_attrs invalid_top e_attr o.go_ignore [] d.gd_attrs with
+  | Ok a ->
+    let (kept, seen) = a in
+    let attrs0 = sort attr_lt kept in
+    let ext = sort (fun a0 b -> bytes_lt (fst a0) (fst b)) o.go_ext in
+    (match split_values o.go_ignore (map (fun g -> g.ga_name) attrs0)
+             (map fst ext) d.gd_vals with
+     | Ok a0 ->
+       let (locals, exts) = a0 in
+       let values = sort value_lt locals in
+       let ext_vals = fun e ->
+         sort value_lt (filter (fun v -> beq v.gl_attr (fst e)) exts)
+       in
+       (match first_error (fun a1 -> check_values a1 values) attrs0 with
+        | Some e -> Err e
+        | None ->
+          (match first_error (fun e ->
+                   check_vals (Zpos (XI (XI (XI (XI (XI (XI (XI (XI (XI (XI
+                     (XI (XI (XI (XI (XI (XI (XI (XI (XI (XI (XI (XI (XI (XI
+                     (XI (XI (XI (XI (XI (XI (XI (XI (XI (XI (XI (XI (XI (XI
+                     (XI (XI (XI (XI (XI (XI (XI (XI (XI (XI (XI (XI (XI (XI
+                     (XI (XI (XI (XI (XI (XI (XI (XI (XI (XI (XI
+                     XH))))))))))))))))))))))))))))))))))))))))))))))))))))))))))))))))
+                     [] (ext_vals e)) ext with
+           | Some e -> Err e
+           | None ->
+             (match check_vendors o.go_ignore seen d.gd_vendors with
+              | Ok cvs ->
+                let vendors = sort (fun a1 b -> vendor_lt a1.cv_v b.cv_v) cvs
+                in
+                Ok
+                (app
+                  (map (fun a1 -> DTypeConst (a1.ga_ident,
+                    (hd Z0 a1.ga_oid))) attrs0)
+                  (app
+                    (map (fun c -> DVendorConst (c.cv_v.gn_ident,
+                      c.cv_v.gn_num)) vendors)
+                    (app
+                      (map (fun e -> DExtInit ((snd e),
+                        (map (fun v -> (v.gl_ident, v.gl_num)) (ext_vals e))))
+                        ext)
+                      (app (flat_map (fun a1 -> funcs a1 values) attrs0)
+                        (flat_map (fun c ->
+                          app
+                            (map (fun x -> DVendorFunc (c.cv_v.gn_ident, x))
+                              (Z0 :: ((Zpos XH) :: ((Zpos (XO XH)) :: ((Zpos
+                              (XI XH)) :: ((Zpos (XO (XO XH))) :: []))))))
+                            (flat_map (fun a1 -> funcs a1 c.cv_vals)
+                              c.cv_attrs)) vendors)))))
+              | Err x -> Err x
+              | Panic -> Panic
+              | OutOfFuel -> OutOfFuel)))
+     | Err x -> Err x
+     | Panic -> Panic
+     | OutOfFuel -> OutOfFuel)
+  | Err x -> Err x
+  | Panic -> Panic
+  | OutOfFuel -> OutOfFuel
+
 type avp = { atype : z; aval : bytes }
 
 type attrs = avp list
@@ -2959,9 +3565,9 @@ let rec parse_attrs_f fuel b =
                               (Nat.ltb (length b) n0)
                          then Panic
                          else (match parse_attrs_f f (skipn n0 b) with
-                               | Ok tl ->
+                               | Ok tl0 ->
                                  Ok ({ atype = (Z.of_N t); aval =
-                                   (skipn (S (S O)) (firstn n0 b)) } :: tl)
+                                   (skipn (S (S O)) (firstn n0 b)) } :: tl0)
                                | x -> x)))
 
 (** val parse_attrs : bytes -> attrs res **)
@@ -5513,12 +6119,12 @@ type recur_t =
     bytes list -> nat -> nat option -> dict -> ioev list -> dict pres * ioev
     list **)
 
-let rec parse_lines ignore_identical opener recur path fname ls lineNo vb d tr =
+let rec parse_lines ignore_identical opener recur path fname0 ls lineNo vb d tr =
   match ls with
   | [] ->
     (match vb with
      | Some _ ->
-       ((PFail (ParseErr (pE_unclosed, fname, (sub lineNo (S O))))), tr)
+       ((PFail (ParseErr (pE_unclosed, fname0, (sub lineNo (S O))))), tr)
      | None -> ((POk d), tr))
   | l :: rest ->
     if too_long l
@@ -5527,32 +6133,32 @@ let rec parse_lines ignore_identical opener recur path fname ls lineNo vb d tr =
           | LInclude n0 ->
             (match vb with
              | Some _ ->
-               ((PFail (ParseErr (pE_incl_in_block, fname, lineNo))), tr)
+               ((PFail (ParseErr (pE_incl_in_block, fname0, lineNo))), tr)
              | None ->
                (match opener n0 with
                 | Some p ->
                   let (cn, body) = p in
                   let tr1 = app tr ((EvOpen cn) :: []) in
                   if existsb (beq cn) path
-                  then ((PFail (ParseErr (pE_recursive, fname, lineNo))),
+                  then ((PFail (ParseErr (pE_recursive, fname0, lineNo))),
                          (app tr1 ((EvClose cn) :: [])))
                   else let (p0, tr2) = recur (cn :: path) cn body d tr1 in
                        (match p0 with
                         | POk d' ->
                           parse_lines ignore_identical opener recur path
-                            fname rest (S lineNo) None d'
+                            fname0 rest (S lineNo) None d'
                             (app tr2 ((EvClose cn) :: ((EvReclose cn) :: [])))
                         | PFail e ->
                           ((PFail e), (app tr2 ((EvClose cn) :: [])))
                         | PFuel -> (PFuel, tr2))
-                | None -> ((PFail (ParseErr (pE_open, fname, lineNo))), tr)))
+                | None -> ((PFail (ParseErr (pE_open, fname0, lineNo))), tr)))
           | x ->
             (match apply_simple ignore_identical d vb x with
              | Ok a ->
                let (d', vb') = a in
-               parse_lines ignore_identical opener recur path fname rest (S
+               parse_lines ignore_identical opener recur path fname0 rest (S
                  lineNo) vb' d' tr
-             | Err e -> ((PFail (ParseErr (e, fname, lineNo))), tr)
+             | Err e -> ((PFail (ParseErr (e, fname0, lineNo))), tr)
              | _ ->
                ((PFail (PlainErr (Npos (XI (XI (XO (XO (XO (XI XH))))))))),
                  tr)))
@@ -5572,9 +6178,9 @@ let rec parse_file ignore_identical opener fuel x x0 x1 x2 tr =
     bool -> (str -> (str * bytes) option) -> nat -> str -> bytes -> dict
     pres * ioev list **)
 
-let parse_root ignore_identical opener fuel fname text =
-  parse_file ignore_identical opener fuel (fname :: []) fname text empty_dict
-    []
+let parse_root ignore_identical opener fuel fname0 text =
+  parse_file ignore_identical opener fuel (fname0 :: []) fname0 text
+    empty_dict []
 
 type heap0 = vendor list
 
@@ -5655,14 +6261,14 @@ let e_merge_vendor =
 let e_merge_vattr =
   Npos (XI (XO (XO (XO (XO XH)))))
 
-(** val check_attrs : pdict -> pdict -> bool **)
+(** val check_attrs0 : pdict -> pdict -> bool **)
 
-let check_attrs d1 d2 =
+let check_attrs0 d1 d2 =
   existsb (attr_clash d1.p_attrs) d2.p_attrs
 
-(** val check_vendors : heap0 -> pdict -> nat list -> n option **)
+(** val check_vendors0 : heap0 -> pdict -> nat list -> n option **)
 
-let rec check_vendors h d1 = function
+let rec check_vendors0 h d1 = function
 | [] -> None
 | p :: r ->
   let v = deref h p in
@@ -5674,8 +6280,8 @@ let rec check_vendors h d1 = function
         | Some q ->
           if existsb (attr_clash (deref h q).vn_attrs) v.vn_attrs
           then Some e_merge_vattr
-          else check_vendors h d1 r
-        | None -> check_vendors h d1 r)
+          else check_vendors0 h d1 r
+        | None -> check_vendors0 h d1 r)
 
 (** val assemble :
     bool -> heap0 -> nat list -> nat list -> heap0 * nat list **)
@@ -5701,9 +6307,9 @@ let rec assemble legacy h ps = function
 (** val merge : bool -> heap0 -> pdict -> pdict -> (heap0 * pdict) res **)
 
 let merge legacy h d1 d2 =
-  if check_attrs d1 d2
+  if check_attrs0 d1 d2
   then Err e_merge_attr
-  else (match check_vendors h d1 d2.p_vendors with
+  else (match check_vendors0 h d1 d2.p_vendors with
         | Some e -> Err e
         | None ->
           let (h', ps) = assemble legacy h d1.p_vendors d2.p_vendors in
@@ -6385,9 +6991,9 @@ let decide h skip_verify secret_of from d =
                | Ok p -> Some { r_packet = p; r_remote = from }
                | _ -> None)
 
-(** val mem : key -> key list -> bool **)
+(** val mem0 : key -> key list -> bool **)
 
-let mem k l =
+let mem0 k l =
   existsb (key_eqb k) l
 
 (** val delete : key -> key list -> key list **)
@@ -6415,7 +7021,7 @@ let dstep h skip_verify secret_of s = function
   (match decide h skip_verify secret_of from d with
    | Some r ->
      let k = (from, r.r_packet.ident) in
-     if mem k s.inflight
+     if mem0 k s.inflight
      then ({ inflight = s.inflight; gs = (app s.gs (GDropped :: [])) },
             ODropped)
      else ({ inflight = (k :: s.inflight); gs =
@@ -6564,9 +7170,9 @@ let rec spec_tlv_dec_f fuel b =
                  len)
           then Err e_attr_len
           else (match spec_tlv_dec_f f (skipn len b) with
-                | Ok tl ->
+                | Ok tl0 ->
                   Ok ({ atype = (Z.of_N t); aval =
-                    (skipn (S (S O)) (firstn len b)) } :: tl)
+                    (skipn (S (S O)) (firstn len b)) } :: tl0)
                 | x -> x)))
 
 (** val spec_tlv_dec : bytes -> attrs res **)
@@ -7155,7 +7761,7 @@ let spec_dstep h skip_verify secret_of s e = match e with
   (match spec_decide h skip_verify secret_of from d with
    | Some r ->
      let k = (from, r.r_packet.ident) in
-     if mem k s.inflight
+     if mem0 k s.inflight
      then ({ inflight = s.inflight; gs = (app s.gs (GDropped :: [])) },
             ODropped)
      else ({ inflight = (k :: s.inflight); gs =
@@ -8426,7 +9032,7 @@ let rec md5_words_le = function
       | c :: l2 ->
         (match l2 with
          | [] -> []
-         | d :: tl -> (md5_word_le a b c d) :: (md5_words_le tl))))
+         | d :: tl0 -> (md5_word_le a b c d) :: (md5_words_le tl0))))
 
 (** val md5_pad_zeros : n -> nat **)
 
@@ -8883,7 +9489,7 @@ let rec sha1_words_be = function
       | c :: l2 ->
         (match l2 with
          | [] -> []
-         | d :: tl -> (sha1_word_be a b c d) :: (sha1_words_be tl))))
+         | d :: tl0 -> (sha1_word_be a b c d) :: (sha1_words_be tl0))))
 
 (** val sha1_pad_zeros : n -> nat **)
 
@@ -9056,7 +9662,7 @@ let sha1_step t st w =
 let rec sha1_rounds t ws st =
   match ws with
   | [] -> st
-  | w :: tl -> sha1_rounds (S t) tl (sha1_step t st w)
+  | w :: tl0 -> sha1_rounds (S t) tl0 (sha1_step t st w)
 
 (** val sha1_compress : sha1_state -> n list -> sha1_state **)
 
@@ -9187,7 +9793,7 @@ let rec md4_words_le = function
       | c :: l2 ->
         (match l2 with
          | [] -> []
-         | d :: tl -> (md4_word_le a b c d) :: (md4_words_le tl))))
+         | d :: tl0 -> (md4_word_le a b c d) :: (md4_words_le tl0))))
 
 (** val md4_pad_zeros : n -> nat **)
 
@@ -10290,7 +10896,7 @@ let rec des_sboxes boxes bits =
                  | b10 :: l3 ->
                    (match l3 with
                     | [] -> []
-                    | b11 :: tl ->
+                    | b11 :: tl0 ->
                       let idx =
                         add
                           (add
@@ -10308,7 +10914,7 @@ let rec des_sboxes boxes bits =
                             (des_b2n b9 (S (S O)))) (des_b2n b10 (S O))
                       in
                       app (des_nibble_bits (nth idx box N0))
-                        (des_sboxes boxes' tl)))))))
+                        (des_sboxes boxes' tl0)))))))
 
 (** val des_f : bool list -> bool list -> bool list **)
 
@@ -10401,13 +11007,13 @@ let utf16_invalid =
 
 (** val utf16_decode : n -> n list -> n * nat **)
 
-let utf16_decode b0 tl =
+let utf16_decode b0 tl0 =
   if N.ltb b0 (Npos (XO (XO (XO (XO (XO (XO (XO XH))))))))
   then (b0, (S O))
   else if N.ltb b0 (Npos (XO (XI (XO (XO (XO (XO (XI XH))))))))
        then utf16_invalid
        else if N.ltb b0 (Npos (XO (XO (XO (XO (XO (XI (XI XH))))))))
-            then (match tl with
+            then (match tl0 with
                   | [] -> utf16_invalid
                   | b6 :: _ ->
                     if utf16_cont b6
@@ -10431,7 +11037,7 @@ let utf16_decode b0 tl =
                         then Npos (XI (XI (XI (XI (XI (XO (XO XH)))))))
                         else Npos (XI (XI (XI (XI (XI (XI (XO XH)))))))
                       in
-                      (match tl with
+                      (match tl0 with
                        | [] -> utf16_invalid
                        | b6 :: l ->
                          (match l with
@@ -10462,7 +11068,7 @@ let utf16_decode b0 tl =
                              then Npos (XI (XI (XI (XI (XO (XO (XO XH)))))))
                              else Npos (XI (XI (XI (XI (XI (XI (XO XH)))))))
                            in
-                           (match tl with
+                           (match tl0 with
                             | [] -> utf16_invalid
                             | b6 :: l ->
                               (match l with
@@ -10536,12 +11142,12 @@ let utf16_emit r =
 
 let rec utf16_go skip = function
 | [] -> []
-| b0 :: tl ->
+| b0 :: tl0 ->
   (match skip with
    | O ->
-     let (r, size) = utf16_decode b0 tl in
-     app (utf16_emit r) (utf16_go (pred size) tl)
-   | S k -> utf16_go k tl)
+     let (r, size) = utf16_decode b0 tl0 in
+     app (utf16_emit r) (utf16_go (pred size) tl0)
+   | S k -> utf16_go k tl0)
 
 (** val utf8_to_utf16le : n list -> n list **)
 
@@ -17083,6 +17689,238 @@ let dispatch_mem name bs zs =
                                                          (skipn nn zs'))))))))))))))))))
   else None
 
+(** val zopt : z -> z option **)
+
+let zopt z0 =
+  if Z.ltb z0 Z0 then None else Some z0
+
+(** val bopt : z -> bool option **)
+
+let bopt z0 =
+  if Z.ltb z0 Z0 then None else Some (Z.eqb z0 (Zpos XH))
+
+(** val take_gattrs :
+    nat -> z list -> bytes list -> gattr list * (z list * bytes list) **)
+
+let rec take_gattrs n0 zs bs =
+  match n0 with
+  | O -> ([], (zs, bs))
+  | S n' ->
+    (match zs with
+     | [] -> ([], (zs, bs))
+     | ol :: zs1 ->
+       (match bs with
+        | [] -> ([], (zs, bs))
+        | nm :: l ->
+          (match l with
+           | [] -> ([], (zs, bs))
+           | idn :: bs1 ->
+             let k = Z.to_nat ol in
+             (match skipn k zs1 with
+              | [] -> ([], (zs, bs))
+              | ty :: l0 ->
+                (match l0 with
+                 | [] -> ([], (zs, bs))
+                 | sz :: l1 ->
+                   (match l1 with
+                    | [] -> ([], (zs, bs))
+                    | en :: l2 ->
+                      (match l2 with
+                       | [] -> ([], (zs, bs))
+                       | tg :: l3 ->
+                         (match l3 with
+                          | [] -> ([], (zs, bs))
+                          | cc :: zs2 ->
+                            let (r, rest) = take_gattrs n' zs2 bs1 in
+                            (({ ga_name = nm; ga_ident = idn; ga_oid =
+                            (firstn k zs1); ga_type = ty; ga_size =
+                            (zopt sz); ga_enc = (zopt en); ga_tag =
+                            (bopt tg); ga_concat = (bopt cc) } :: r), rest)))))))))
+
+(** val take_gvals :
+    nat -> z list -> bytes list -> gvalue list * (z list * bytes list) **)
+
+let rec take_gvals n0 zs bs =
+  match n0 with
+  | O -> ([], (zs, bs))
+  | S n' ->
+    (match zs with
+     | [] -> ([], (zs, bs))
+     | num :: zs1 ->
+       (match bs with
+        | [] -> ([], (zs, bs))
+        | at_ :: l ->
+          (match l with
+           | [] -> ([], (zs, bs))
+           | nm :: l0 ->
+             (match l0 with
+              | [] -> ([], (zs, bs))
+              | idn :: bs1 ->
+                let (r, rest) = take_gvals n' zs1 bs1 in
+                (({ gl_attr = at_; gl_name = nm; gl_ident = idn; gl_num =
+                num } :: r), rest)))))
+
+(** val take_gvendors : nat -> z list -> bytes list -> gvendor list **)
+
+let rec take_gvendors n0 zs bs =
+  match n0 with
+  | O -> []
+  | S n' ->
+    (match zs with
+     | [] -> []
+     | num :: l ->
+       (match l with
+        | [] -> []
+        | tl_ :: l0 ->
+          (match l0 with
+           | [] -> []
+           | ll :: l1 ->
+             (match l1 with
+              | [] -> []
+              | na :: l2 ->
+                (match l2 with
+                 | [] -> []
+                 | nv :: zs1 ->
+                   (match bs with
+                    | [] -> []
+                    | nm :: l3 ->
+                      (match l3 with
+                       | [] -> []
+                       | idn :: bs1 ->
+                         let (attrs0, p) = take_gattrs (Z.to_nat na) zs1 bs1
+                         in
+                         let (zs2, bs2) = p in
+                         let (vals, p0) = take_gvals (Z.to_nat nv) zs2 bs2 in
+                         let (zs3, bs3) = p0 in
+                         { gn_name = nm; gn_ident = idn; gn_num = num;
+                         gn_tlen = tl_; gn_llen = ll; gn_attrs = attrs0;
+                         gn_vals = vals } :: (take_gvendors n' zs3 bs3))))))))
+
+(** val take_pairs :
+    nat -> bytes list -> (bytes * bytes) list * bytes list **)
+
+let rec take_pairs n0 bs =
+  match n0 with
+  | O -> ([], bs)
+  | S n' ->
+    (match bs with
+     | [] -> ([], bs)
+     | a :: l ->
+       (match l with
+        | [] -> ([], bs)
+        | b :: r -> let (ps, rest) = take_pairs n' r in (((a, b) :: ps), rest)))
+
+(** val fcode : fname -> z **)
+
+let fcode = function
+| FAdd -> Z0
+| FAddString -> Zpos XH
+| FGet -> Zpos (XO XH)
+| FGetString -> Zpos (XI XH)
+| FGets -> Zpos (XO (XO XH))
+| FGetStrings -> Zpos (XI (XO XH))
+| FLookup -> Zpos (XO (XI XH))
+| FLookupString -> Zpos (XI (XI XH))
+| FSet -> Zpos (XO (XO (XO XH)))
+| FSetString -> Zpos (XI (XO (XO XH)))
+| FDel -> Zpos (XO (XI (XO XH)))
+
+(** val vcode : vtype -> z **)
+
+let vcode = function
+| VBytes -> Z0
+| VString -> Zpos XH
+| VIP -> Zpos (XO XH)
+| VHW -> Zpos (XI XH)
+| VNet -> Zpos (XO (XO XH))
+| VTime -> Zpos (XI (XO XH))
+| VNamed -> Zpos (XO (XI XH))
+| VByte -> Zpos (XI (XI XH))
+
+(** val zb : bool -> z **)
+
+let zb = function
+| true -> Zpos XH
+| false -> Z0
+
+(** val t_gdecl : gdecl -> tok list **)
+
+let t_gdecl = function
+| DTypeConst (i, n0) -> (TI (Zpos XH)) :: ((TB i) :: ((TI n0) :: []))
+| DVendorConst (i, n0) -> (TI (Zpos (XO XH))) :: ((TB i) :: ((TI n0) :: []))
+| DExtInit (i, vs) ->
+  (TI (Zpos (XI XH))) :: ((TI
+    (zlen vs)) :: (flat_map (fun v -> (TB i) :: ((TB (fst v)) :: ((TI
+                    (snd v)) :: []))) vs))
+| DIntType (i, b) -> (TI (Zpos (XO (XO XH)))) :: ((TB i) :: ((TI b) :: []))
+| DValueConst (i, v, n0) ->
+  (TI (Zpos (XI (XO XH)))) :: ((TB i) :: ((TB v) :: ((TI n0) :: [])))
+| DStrings i -> (TI (Zpos (XO (XI XH)))) :: ((TB i) :: [])
+| DStringer i -> (TI (Zpos (XI (XI XH)))) :: ((TB i) :: [])
+| DFunc (i, f, tg, q, vt) ->
+  (match f with
+   | FDel ->
+     (TI (Zpos (XO (XO (XO XH))))) :: ((TB i) :: ((TI (Zpos (XO (XI (XO
+       XH))))) :: ((TI Z0) :: ((TI Z0) :: ((TI Z0) :: [])))))
+   | _ ->
+     (TI (Zpos (XO (XO (XO XH))))) :: ((TB i) :: ((TI (fcode f)) :: ((TI
+       (zb tg)) :: ((TI (zb q)) :: ((TI (vcode vt)) :: []))))))
+| DVendorFunc (i, w) ->
+  (TI (Zpos (XI (XO (XO XH))))) :: ((TB i) :: ((TI w) :: []))
+
+(** val dispatch_gen : bytes -> bytes list -> z list -> tok list option **)
+
+let dispatch_gen name bs zs =
+  if (||)
+       (name_is name (String ((Ascii (true, false, true, true, false, true,
+         true, false)), (String ((Ascii (false, true, true, true, false,
+         true, false, false)), (String ((Ascii (true, true, true, false,
+         false, true, true, false)), (String ((Ascii (true, false, true,
+         false, false, true, true, false)), (String ((Ascii (false, true,
+         true, true, false, true, true, false)), EmptyString)))))))))))
+       (name_is name (String ((Ascii (true, true, false, false, true, true,
+         true, false)), (String ((Ascii (false, true, true, true, false,
+         true, false, false)), (String ((Ascii (true, true, true, false,
+         false, true, true, false)), (String ((Ascii (true, false, true,
+         false, false, true, true, false)), (String ((Ascii (false, true,
+         true, true, false, true, true, false)), EmptyString)))))))))))
+  then (match zs with
+        | [] -> Some ((TI (Zneg (XO (XI (XI (XI (XI (XO XH)))))))) :: [])
+        | ni :: l ->
+          (match l with
+           | [] -> Some ((TI (Zneg (XO (XI (XI (XI (XI (XO XH)))))))) :: [])
+           | ne :: l0 ->
+             (match l0 with
+              | [] ->
+                Some ((TI (Zneg (XO (XI (XI (XI (XI (XO XH)))))))) :: [])
+              | na :: l1 ->
+                (match l1 with
+                 | [] ->
+                   Some ((TI (Zneg (XO (XI (XI (XI (XI (XO XH)))))))) :: [])
+                 | nv :: l2 ->
+                   (match l2 with
+                    | [] ->
+                      Some ((TI (Zneg (XO (XI (XI (XI (XI (XO
+                        XH)))))))) :: [])
+                    | nn :: zs0 ->
+                      let ign = firstn (Z.to_nat ni) bs in
+                      let (ext, bs1) =
+                        take_pairs (Z.to_nat ne) (skipn (Z.to_nat ni) bs)
+                      in
+                      let (attrs0, p) = take_gattrs (Z.to_nat na) zs0 bs1 in
+                      let (zs1, bs2) = p in
+                      let (vals, p0) = take_gvals (Z.to_nat nv) zs1 bs2 in
+                      let (zs2, bs3) = p0 in
+                      let vendors = take_gvendors (Z.to_nat nn) zs2 bs3 in
+                      (match gen { go_ignore = ign; go_ext = ext }
+                               { gd_attrs = attrs0; gd_vals = vals;
+                               gd_vendors = vendors } with
+                       | Ok ds -> Some ((TI Z0) :: (flat_map t_gdecl ds))
+                       | Err e ->
+                         Some ((TI (Zneg XH)) :: ((TI (Z.of_N e)) :: []))
+                       | _ -> Some ((TI (Zneg (XO XH))) :: [])))))))
+  else None
+
 (** val dispatch : bytes -> bytes list -> z list -> tok list **)
 
 let dispatch name bs zs =
@@ -17159,6 +17997,10 @@ let dispatch name bs zs =
                                                            zs with
                                                    | Some t -> t
                                                    | None ->
-                                                     (TI (Zneg (XI (XO (XO
-                                                       (XO (XO (XI
-                                                       XH)))))))) :: []))))))))))))
+                                                     (match dispatch_gen name
+                                                              bs zs with
+                                                      | Some t -> t
+                                                      | None ->
+                                                        (TI (Zneg (XI (XO (XO
+                                                          (XO (XO (XI
+                                                          XH)))))))) :: [])))))))))))))
